@@ -53,7 +53,9 @@ MANIFEST = dict(
                 "(C02_pass_notices_finished); every end-of-stream that can be passed on has been passed on when a callback returns "
                 "(C02_eof_passed_on_in_callback), so a handler that has just had its callback and registers nothing with select, the "
                 "tunnel not being paused, is quiet - no wake-up is lost between a callback and the next select "
-                "(C02_idle_handler_is_quiet, C02_pass_leaves_nothing_unasked); and the property's last sentence as a theorem: in every reachable alive world, if none of the "
+                "(C02_idle_handler_is_quiet, C02_pass_leaves_nothing_unasked), and conversely a handler that has had its callback and is "
+                "not quiet registers a descriptor that is ready and its callback then changes the state "
+                "(C02_unquiet_handler_is_woken); and the property's last sentence as a theorem: in every reachable alive world, if none of the "
                 "loop's own moves changes it - delivering the next frame in either direction, a callback of any handler on either "
                 "end with every socket ready - then the world is Quiet (C02_no_stuck_state, from callback_fixpoint: a handler on "
                 "which a fully-ready callback is the identity is not connecting, has both buffers empty, nothing to read and every "
